@@ -1,5 +1,6 @@
 (* Props/C05.v — Renaming never overwrites or loses existing files.  Statements only. *)
 From RN Require Import Base.Bytes Model.Edits Model.Fs Model.ApplyModel Proofs.ApplyP Proofs.RenameP Proofs.RenameP2.
+From RN Require Import Proofs.ApplySpecP.
 
 (* whatever the plan, the tree and the fault position: if any planned destination is occupied
    (by a file, a directory - empty or not - or a symlink), apply reports failure, performs no
@@ -32,6 +33,20 @@ Theorem C05_no_loss : forall rs t,
     /\ forall q n, lookup t q = Some n -> lookup (s_fs s') (final_path rs q) = Some n.
 Proof. exact rename_stage_fs_no_case_only. Qed.
 
+(* the whole plan, content edits included (Proofs/ApplySpecP.v): after a successful apply of a plan satisfying plan_ok EVERY entry
+   that was present before is still present - at its final path, a regular file with planned edits holding the reference splice
+   of its own content and its mode, every other entry exactly as it was - and the number of entries is unchanged *)
+Theorem C05_every_entry_still_present : forall p t q n,
+  plan_ok p t -> lookup t q = Some n ->
+  lookup (r_fs (apply_core no_fault p t)) (final_path (ap_renames p) q) = Some (spec_content (ap_hunks p) q n) /\
+  length (r_fs (apply_core no_fault p t)) = length t.
+Proof.
+  intros p t q n W L. split; [|apply apply_node_count; exact W].
+  rewrite (apply_lookup p t q W); [rewrite L; reflexivity|].
+  apply (key_avoids _ t (po_shape _ _ W) (po_fs _ _ W)). eapply lookup_some_in. exact L.
+Qed.
+
+Print Assumptions C05_every_entry_still_present.
 Print Assumptions C05_no_loss.
 Print Assumptions C05_occupied_destination_refused.
 Print Assumptions C05_success_means_destinations_free.
